@@ -55,7 +55,11 @@ func (t *topology) Update(primaryNode string, secondaries ...string) {
 		var found bool
 		for _, oldEndpoint := range t.endpoints {
 			if oldEndpoint.url == url {
-				// Take over the old endpoint
+				// Take over the old endpoint: it keeps its health marks but is
+				// a secondary now (it may have been the previous primary)
+				oldEndpoint.Lock()
+				oldEndpoint.nodeType = secondary
+				oldEndpoint.Unlock()
 				newEndpoints = append(newEndpoints, oldEndpoint)
 				found = true
 				break
